@@ -333,6 +333,7 @@ func c14Run(t *testing.T, tape *simrt.Tape, o simwork.Opts) *simwork.Result {
 	}
 	if cs.CloseAfter >= 0 {
 		cs.End = "close-early"
+		cs.CloseFails = tape.Bool(1, 4, "early-close-fails")
 	}
 	res.Faults["end:"+cs.End]++
 	var bounds []int
@@ -352,6 +353,7 @@ func c14Run(t *testing.T, tape *simrt.Tape, o simwork.Opts) *simwork.Result {
 	}
 	var (
 		appClosedAtEnd bool
+		appClosedEarly bool
 		appCloseErr    error
 		reused         []byte
 	)
@@ -361,7 +363,7 @@ func c14Run(t *testing.T, tape *simrt.Tape, o simwork.Opts) *simwork.Result {
 		var log []ioRec
 		for i := 0; ; i++ {
 			if closeAfter >= 0 && i >= closeAfter {
-				_ = r.Close()
+				appClosedEarly, appCloseErr = true, r.Close()
 				return log
 			}
 			size := readSizes()
@@ -601,6 +603,9 @@ func c14Run(t *testing.T, tape *simrt.Tape, o simwork.Opts) *simwork.Result {
 		delivered = got
 		if cs.CloseAfter >= 0 && (len(inner.log) == 0 || inner.log[len(inner.log)-1].Err == nil) {
 			injectedEnd = errors.New("closed before fully consumed")
+			if inner.closeErr != nil {
+				injectedEnd = inner.closeErr // the body ends with the failure of Close
+			}
 			if inner.closed != 1 {
 				viol("c14/reader-transparency", "application closed the body once, inner stream saw %d Close calls", inner.closed)
 			}
@@ -609,12 +614,18 @@ func c14Run(t *testing.T, tape *simrt.Tape, o simwork.Opts) *simwork.Result {
 				injectedEnd = e
 			}
 		}
+		if appClosedEarly && appCloseErr != inner.closeErr {
+			viol("c14/reader-transparency", "Close before the end of the body returned %v to the application, the inner stream's Close returned %v", appCloseErr, inner.closeErr)
+		}
+		if appClosedEarly && inner.closeErr != nil {
+			res.Probes["early-close-fails"]++
+		}
 		if appClosedAtEnd {
 			res.Probes["close-after-end-of-body"]++
 			if inner.closed != 1 {
 				viol("c14/reader-transparency", "application closed the body once after it had ended, inner stream saw %d Close calls", inner.closed)
 			}
-			if !errors.Is(appCloseErr, inner.closeErr) || (appCloseErr == nil) != (inner.closeErr == nil) {
+			if appCloseErr != inner.closeErr { // the very error value: the wrapper is transparent
 				viol("c14/reader-transparency", "Close after the end of the body returned %v to the application, the inner stream's Close returned %v", appCloseErr, inner.closeErr)
 			}
 		}
